@@ -4,7 +4,8 @@ import PyIpmi.Gen.Tables
 namespace PyIpmi.Model.Api
 open PyIpmi PyIpmi.Codec PyIpmi.Spec.Bmc PyIpmi.Gen.Tables
 
-def getLanParam (ch sel setSel blk : Nat) (revOnly : Bool) (s : BmcState) : Outcome (BmcState × List Nat) :=
+/-- get_lan_config_param, continued by `k` on the parameter data -/
+def getLanParam (ch sel setSel blk : Nat) (revOnly : Bool) (k : List Nat → Outcome Result) : Exchange :=
   let r := fresh reqGetLanConfigurationParameters
   let r := setBit r 0 2 (b2n revOnly)
   let r := if revOnly then r else
@@ -12,54 +13,62 @@ def getLanParam (ch sel setSel blk : Nat) (revOnly : Bool) (s : BmcState) : Outc
     let r := setInt r 1 sel
     let r := setInt r 2 setSel
     setInt r 3 blk
-  (transact reqGetLanConfigurationParameters rspGetLanConfigurationParameters 0 r s).bind fun (s', v) =>
-    .ok (s', arrAt v 2)
+  { req := reqGetLanConfigurationParameters, rsp := rspGetLanConfigurationParameters, vals := .ok r,
+    post := fun v => k (arrAt v 2) }
 
-def api_get_lan_config_param (ch sel setSel blk : Nat) (revOnly : Bool) (s : BmcState) : Outcome (BmcState × Result) :=
-  (getLanParam ch sel setSel blk revOnly s).bind fun (s', d) => .ok (s', .bytes d)
+def api_get_lan_config_param (ch sel setSel blk : Nat) (revOnly : Bool) : Exchange :=
+  getLanParam ch sel setSel blk revOnly fun d => .ok (.bytes d)
 
-def api_set_lan_config_param (ch sel : Nat) (data : List Nat) (s : BmcState) : Outcome (BmcState × Result) :=
+def api_set_lan_config_param (ch sel : Nat) (data : List Nat) : Exchange :=
   let r := fresh reqSetLanConfigurationParameters
   let r := setBit r 0 0 ch
   let r := setInt r 1 sel
   let r := setArr r 2 data
-  (transact reqSetLanConfigurationParameters rspSetLanConfigurationParameters 0 r s).bind fun (s', _) => .ok (s', .unit)
+  { req := reqSetLanConfigurationParameters, rsp := rspSetLanConfigurationParameters, vals := .ok r,
+    post := fun _ => .ok .unit }
 
-def api_get_ip_address (ch : Nat) (s : BmcState) : Outcome (BmcState × Result) :=
-  (getLanParam ch lanIp 0 0 false s).bind fun (s', d) => .ok (s', .ip d)
+def api_get_ip_address (ch : Nat) : Exchange :=
+  getLanParam ch lanIp 0 0 false fun d => .ok (.ip d)
 
 /-- `ip` = the integers between the dots -/
-def api_set_ip_address (ip : List Nat) (ch : Nat) (s : BmcState) : Outcome (BmcState × Result) :=
-  if ip.any (· ≥ 256) then .pyError "OverflowError" else api_set_lan_config_param ch lanIp ip s
+def api_set_ip_address (ip : List Nat) (ch : Nat) : Exchange :=
+  if ip.any (· ≥ 256) then .raise (.pyError "OverflowError") else api_set_lan_config_param ch lanIp ip
 
-def api_get_ip_source (ch : Nat) (s : BmcState) : Outcome (BmcState × Result) :=
-  (getLanParam ch lanIpSrc 0 0 false s).bind fun (s', d) =>
+def api_get_ip_source (ch : Nat) : Exchange :=
+  getLanParam ch lanIpSrc 0 0 false fun d =>
     match d with
     | d0 :: _ =>
       match lookup rawToIpSrc (d0 % 16) with
-      | some m => .ok (s', .ipSource m)
+      | some m => .ok (.ipSource m)
       | none => .pyError "KeyError"
     | [] => .pyError "IndexError"
 
-def api_set_ip_source (src ch : Nat) (s : BmcState) : Outcome (BmcState × Result) :=
+def api_set_ip_source (src ch : Nat) : Exchange :=
   match lookup ipSrcToData src with
-  | some d => api_set_lan_config_param ch lanIpSrc d s
-  | none => .pyError "ValueError"
+  | some d => api_set_lan_config_param ch lanIpSrc d
+  | none => .raise (.pyError "ValueError")
 
-def api_get_mac_address (ch : Nat) (s : BmcState) : Outcome (BmcState × Result) :=
-  (getLanParam ch lanMac 0 0 false s).bind fun (s', d) => .ok (s', .mac d)
+def api_get_mac_address (ch : Nat) : Exchange :=
+  getLanParam ch lanMac 0 0 false fun d => .ok (.mac d)
 
 /-- data_to_vlan -/
-def api_get_vlan_id (ch : Nat) (s : BmcState) : Outcome (BmcState × Result) :=
-  (getLanParam ch lanVlan 0 0 false s).bind fun (s', d) =>
-    match d with
-    | d0 :: d1 :: _ => .ok (s', .nat (if d1 / 128 = 0 then 0 else (d1 % 16) * 256 ||| d0))
-    | _ => .pyError "IndexError"
+def dataToVlan (d : List Nat) : Outcome Nat :=
+  match d with
+  | d0 :: d1 :: _ => .ok (if d1 / 128 = 0 then 0 else (d1 % 16) * 256 ||| d0)
+  | _ => .pyError "IndexError"
 
 /-- vlan_to_data -/
-def api_set_vlan_id (v ch : Nat) (s : BmcState) : Outcome (BmcState × Result) :=
+def vlanToData (v : Nat) : Outcome (List Nat) :=
   if v > 4095 then .pyError "ValueError"
-  else if v = 0 then api_set_lan_config_param ch lanVlan [0, 0] s
-  else api_set_lan_config_param ch lanVlan [v % 256, 128 ||| (v / 256 % 16)] s
+  else if v = 0 then .ok [0, 0]
+  else .ok [v % 256, 128 ||| (v / 256 % 16)]
+
+def api_get_vlan_id (ch : Nat) : Exchange :=
+  getLanParam ch lanVlan 0 0 false fun d => (dataToVlan d).bind fun v => .ok (.nat v)
+
+def api_set_vlan_id (v ch : Nat) : Exchange :=
+  match vlanToData v with
+  | .ok d => api_set_lan_config_param ch lanVlan d
+  | e => .raise (reraise e)
 
 end PyIpmi.Model.Api
